@@ -1,17 +1,23 @@
 """C16 - extract_loci / read_meme: correspondence with coq/C16 (model + spec).
 
 read_meme: MEME files are drawn from the grammar of coq/C16/Spec.v (the grammar tree is the
-input; the harness renders it to bytes, Coq renders it again and compares), read by the real
-io.read_meme, once in the drawn layout and once re-written in the plain layout.
+input; the harness renders it to bytes, Coq renders it again and compares a checksum), read by
+the real io.read_meme, once in the drawn layout and once re-written in the plain layout, with
+n_motifs = None / k, several times in a row on the same file.
 extract_loci: synthetic genomes written as FASTA + bigwig + BED files and handed over as
-in-memory arrays / DataFrames; both results go to Coq together with the genome.
+in-memory arrays / DataFrames (and mixtures); both results go to Coq together with the genome.
+One input is a SEQUENCE of calls made in one process on the same files and the same in-memory
+objects, one parameter changed from call to call; afterwards the caller's objects are compared
+with copies taken before the first call.
 """
 import atexit
 import contextlib
+import copy
 import hashlib
 import io as _io
 import json
 import os
+import pathlib
 import shutil
 from fractions import Fraction
 
@@ -21,32 +27,38 @@ from . import common as C
 
 PID = 'C16'
 IMPORTS = ['C16.Model', 'C16.Spec']
-CASE_TYPE = 'case'
-CHECK = 'check_case'
-SHARD = 80
+CASE_TYPE = 'mcase'
+CHECK = 'check_mcase'
+SHARD = 60
 RULE = ('extract_loci: synthetic genomes (1-4 chromosomes of 12-90 bases, upper/lower case, N runs; 0-3 '
-        'integer signal tracks with uncovered stretches) written as FASTA+bigwig+BED and passed as arrays/'
-        'DataFrames; 1-3 locus sets of unequal length with midpoints drawn mostly so that the expanded '
-        'window ends within 2 positions of a chromosome end; in/out windows 1-14 of both parities, '
-        'in <,=,> out, jitter 0-3, chroms filters (incl. chromosome-sorted sets whose requested '
-        'chromosomes are not the first, so prefixes/middles of different lengths are removed per set), '
-        'DataFrames with default / shuffled / reversed / duplicate / stale row labels, n_loci caps, '
-        'min/max counts on the boundary. '
+        'signal and 0-2 in_signal integer tracks with uncovered stretches) written as FASTA+bigwig+BED and '
+        'passed as arrays/DataFrames or mixtures of both (dtypes int8/bool/float32/int64/memmap, float32/'
+        'float64/int64 signals, DataFrames with extra columns, int32/object columns, default / shuffled / '
+        'reversed / duplicate / stale row labels; list / tuple / single containers; numpy integer and '
+        'float parameters); 1-3 locus sets of unequal length with midpoints drawn mostly so that the '
+        'expanded window ends within 2 positions of a chromosome end; in/out windows 1-14 (and = / > '
+        'chromosome length) of both parities, in <,=,> out, jitter 0-3, chroms filters (incl. chromosome-'
+        'sorted sets whose requested chromosomes are not the first, empty list, tuple), n_loci 0..kept+1, '
+        'integer and half-integer min/max counts on the boundary, permuted / 5-letter alphabets. '
         'read_meme: files drawn from the grammar header . (MOTIF . other lines . letter line . w rows . '
         'separators*)* with 1-6 motifs, w 0-6, blank/URL/whitespace separators or none, LF/CRLF/mixed, '
-        'with/without final newline, trailing blanks, decimal/exponent tokens. '
+        'with/without final newline, trailing blanks, decimal/exponent/signed tokens, n_motifs None/0..n+1, '
+        'str / pathlib paths. 35 % of the inputs are sequences of 2-3 calls on the same objects with one '
+        'parameter changed. '
         'non-trivial = some locus whose expanded window lies within max(w_in,w_out) of a chromosome end, '
         'or a MEME file in which some matrix is directly followed by the next MOTIF line or by the end '
         'of the file')
 TRUSTED = ['pyfaidx and pyBigWig return the bytes / values written to the FASTA / bigwig files (not verified; '
            'the file-vs-array identity is a correspondence result)',
-           'decoding of returned one-hot columns to codes 0-4 (9 = not one-hot) and of float signals to '
-           'integers (non-integral -> sentinel) in harness/c16.py',
+           'decoding of returned one-hot columns to the row index (-1 = all-zero, 99 = not one-hot) and of '
+           'float signals to integers (non-integral -> sentinel) in harness/c16.py',
            'Python float(token) vs the exact decimal of the token: compared in Coq with relative '
            'tolerance 1e-12 on Fraction(float)']
 ASSUMPTIONS = ['chromosome names are modelled as integer ids (chr<id>)',
                'an uncovered bigwig position / NaN array cell counts as the value 0 (numpy.nan_to_num)',
-               'in_signals and n_motifs are outside the property text and are not exercised']
+               'every genome character outside the alphabet is in `ignore` (generator invariant)',
+               'signals=None with in_signals and out_window//2 > in_window//2 is outside the scope (the text '
+               'does not define the expanded window there)']
 
 _TMP = None
 _CACHE = {}
@@ -102,39 +114,108 @@ def plain_layout(g):
     return ''.join(out).encode('ascii')
 
 
-def read_meme_file(data, name):
+
+def meme_steps(inp):
+    """the calls of one read_meme input: n_motifs of the first call, then of the later ones"""
+    return [inp.get('n_motifs')] + [s.get('n_motifs') for s in inp.get('then', [])]
+
+
+def motifs_out(motifs):
+    out = []
+    for k, v in motifs.items():
+        out.append([k, [[str(Fraction(float(x))) for x in r] for r in v.tolist()]])
+    return out
+
+
+def run_meme(inp):
     from tangermeme.io import read_meme
-    p = os.path.join(tmpdir(), name)
-    with open(p, 'wb') as f:
-        f.write(data)
+    files = [('m.meme', render(inp)), ('p.meme', plain_layout(inp))]
+    paths = []
+    for name, data in files:
+        p = os.path.join(tmpdir(), name)
+        with open(p, 'wb') as f:
+            f.write(data)
+        paths.append(p)
+    steps = []
+    earlier = []
+    ok = True
     try:
-        motifs = read_meme(p)
-        out = []
-        for k, v in motifs.items():
-            M = v.tolist()
-            out.append([k, [[str(Fraction(float(x))) for x in r] for r in M]])
-        return out
-    except Exception:
-        return None
+        for k, n in enumerate(meme_steps(inp)):
+            if n is not None and inp.get('np_int'):
+                n = numpy.int64(n)
+            outs = []
+            for p in paths:
+                arg = pathlib.Path(p) if (inp.get('pathlib') and k % 2 == 0) else p
+                try:
+                    motifs = read_meme(arg) if n is None else read_meme(arg, n_motifs=n)
+                    outs.append(motifs_out(motifs))
+                    # scribble over what was returned: a later call must not hand it out again
+                    earlier.append((motifs, copy.deepcopy(outs[-1])))
+                    for v in motifs.values():
+                        if v.numel():
+                            v.fill_(7.0)
+                except Exception:
+                    outs.append(None)
+            steps.append(outs)
     finally:
-        os.remove(p)
+        for (_, data), p in zip(files, paths):
+            ok = ok and open(p, 'rb').read() == data       # the file itself is left alone
+            os.remove(p)
+    return {'steps': steps, 'unmodified': ok, 'hash': file_hash(files[0][1]),
+            'file': files[0][1].decode('latin-1')}
 
 
 # ------------------------------------------------------------------------------------------
 # genomes as files and as arrays
 
-CODES = {'A': 0, 'C': 1, 'G': 2, 'T': 3}
-
-
 def chrom_name(i):
     return 'chr%d' % i
 
 
+def norm_inp(inp):
+    """defaults for the fields older corpus / replay files do not have"""
+    inp = dict(inp)
+    if 'min2' not in inp:
+        inp['min2'] = None if inp.get('min') is None else 2 * inp['min']
+        inp['max2'] = None if inp.get('max') is None else 2 * inp['max']
+    inp.setdefault('nin', 0)
+    inp.setdefault('alpha', 'ACGT')
+    inp.setdefault('ignore', ['N'])
+    inp.setdefault('then', [])
+    inp.setdefault('dfindex', None)
+    f = dict(inp.get('forms') or {})
+    f.setdefault('container', 'list' if (inp.get('aslist', True) or len(inp['sets']) > 1) else 'single')
+    f.setdefault('bed_extra', False)
+    f.setdefault('df_extra', False)
+    f.setdefault('df_dtype', 'int64')
+    f.setdefault('seq_dtype', 'int8')
+    f.setdefault('sig_dtype', 'float32')
+    f.setdefault('np_int', False)
+    f.setdefault('count_type', 'py')
+    f.setdefault('chroms_tuple', False)
+    f.setdefault('mem', {'loci': 'df', 'seq': 'dict', 'sig': 'dict', 'insig': 'dict'})
+    inp['forms'] = f
+    inp['genome'] = [dict(c, insig=c.get('insig', [])) for c in inp['genome']]
+    return inp
+
+
+def write_bw(path, genome, key, t):
+    import pyBigWig
+    bw = pyBigWig.open(path, 'w')
+    bw.addHeader([(chrom_name(c['id']), len(c['seq'])) for c in genome])
+    for c in genome:
+        v = c[key][t]
+        pos = [i for i, x in enumerate(v) if x is not None]
+        if pos:
+            bw.addEntries([chrom_name(c['id'])] * len(pos), pos, ends=[i + 1 for i in pos],
+                          values=[float(v[i]) for i in pos])
+    bw.close()
+
+
 def genome_files(inp):
-    key = hashlib.sha1(json.dumps([inp['genome'], inp['nsig']], sort_keys=True).encode()).hexdigest()[:16]
+    key = hashlib.sha1(json.dumps([inp['genome'], inp['nsig'], inp['nin']], sort_keys=True).encode()).hexdigest()[:16]
     if key in _CACHE:
         return _CACHE[key]
-    import pyBigWig
     d = os.path.join(tmpdir(), key)
     os.makedirs(d, exist_ok=True)
     fa = os.path.join(d, 'g.fa')
@@ -144,104 +225,232 @@ def genome_files(inp):
             s = c['seq']
             for i in range(0, len(s), 23):
                 f.write(s[i:i + 23] + '\n')
-    bws = []
+    bws, ibws = [], []
     for t in range(inp['nsig']):
-        p = os.path.join(d, 's%d.bw' % t)
-        bw = pyBigWig.open(p, 'w')
-        bw.addHeader([(chrom_name(c['id']), len(c['seq'])) for c in inp['genome']])
-        for c in inp['genome']:
-            v = c['sig'][t]
-            pos = [i for i, x in enumerate(v) if x is not None]
-            if pos:
-                bw.addEntries([chrom_name(c['id'])] * len(pos), pos, ends=[i + 1 for i in pos],
-                              values=[float(v[i]) for i in pos])
-        bw.close()
-        bws.append(p)
+        bws.append(os.path.join(d, 's%d.bw' % t))
+        write_bw(bws[-1], inp['genome'], 'sig', t)
+    for t in range(inp['nin']):
+        ibws.append(os.path.join(d, 'i%d.bw' % t))
+        write_bw(ibws[-1], inp['genome'], 'insig', t)
     if len(_CACHE) > 64:
-        k0, (fa0, _) = next(iter(_CACHE.items()))
+        k0, (fa0, _, _) = next(iter(_CACHE.items()))
         shutil.rmtree(os.path.dirname(fa0), ignore_errors=True)
         del _CACHE[k0]
-    _CACHE[key] = (fa, bws)
-    return fa, bws
+    _CACHE[key] = (fa, bws, ibws)
+    return fa, bws, ibws
 
 
-def genome_arrays(inp):
-    seqs, sigs = {}, [dict() for _ in range(inp['nsig'])]
+def seq_arrays(inp, alpha):
+    dt = inp['forms']['seq_dtype']
+    out = {}
     for c in inp['genome']:
-        a = numpy.zeros((4, len(c['seq'])), dtype=numpy.int8)
+        a = numpy.zeros((len(alpha), len(c['seq'])), dtype=numpy.int8)
         for i, ch in enumerate(c['seq'].upper()):
-            if ch in CODES:
-                a[CODES[ch], i] = 1
-        seqs[chrom_name(c['id'])] = a
-        for t in range(inp['nsig']):
-            sigs[t][chrom_name(c['id'])] = numpy.array(
-                [numpy.nan if x is None else float(x) for x in c['sig'][t]], dtype=numpy.float32)
-    return seqs, sigs
+            if ch in alpha:
+                a[alpha.index(ch), i] = 1
+        if dt == 'memmap':
+            p = os.path.join(tmpdir(), 'mm_%d_%d.dat' % (c['id'], len(_KEEP)))
+            m = numpy.memmap(p, dtype=numpy.int8, mode='w+', shape=a.shape)
+            m[:] = a
+            m.flush()
+            a = numpy.memmap(p, dtype=numpy.int8, mode='r', shape=a.shape)
+            _KEEP.append(p)
+        elif dt != 'int8':
+            a = a.astype({'float32': numpy.float32, 'int64': numpy.int64, 'bool': bool}[dt])
+        out[chrom_name(c['id'])] = a
+    return out
 
 
-def decode_rows(y, nsig):
-    if nsig:
-        X, S = y[0], y[1]
-        S = S.tolist()
-    else:
-        X, S = y, None
+_KEEP = []
+
+
+def sig_arrays(inp, key, n):
+    dt = inp['forms']['sig_dtype']
+    out = [dict() for _ in range(n)]
+    for c in inp['genome']:
+        for t in range(n):
+            if dt == 'int64':
+                a = numpy.array([0 if x is None else x for x in c[key][t]], dtype=numpy.int64)
+            else:
+                a = numpy.array([numpy.nan if x is None else float(x) for x in c[key][t]],
+                                dtype=numpy.float32 if dt == 'float32' else numpy.float64)
+            out[t][chrom_name(c['id'])] = a
+    return out
+
+
+def decode_rows(y, nsig, nin):
+    if not isinstance(y, (list, tuple)):
+        y = [y]
+    y = list(y)
+    X = y.pop(0)
+    S = y.pop(0).tolist() if nsig else None
+    I = y.pop(0).tolist() if nin else None
     X = X.numpy() if hasattr(X, 'numpy') else numpy.asarray(X)
     rows = []
+
+    def ints(tracks):
+        return [[int(v) if (v == v and float(v) == int(v)) else -999983 for v in tr] for tr in tracks]
     for i in range(X.shape[0]):
         codes = []
         for col in X[i].T.tolist():
-            if sorted(col) == [0, 0, 0, 1]:
-                codes.append(col.index(1))
-            elif col == [0, 0, 0, 0]:
-                codes.append(4)
+            nz = [k for k, v in enumerate(col) if v != 0]
+            if not nz:
+                codes.append(-1)
+            elif len(nz) == 1 and col[nz[0]] == 1:
+                codes.append(nz[0])
             else:
-                codes.append(9)
-        sig = []
-        if nsig:
-            for tr in S[i]:
-                sig.append([int(v) if float(v) == int(v) else -999983 for v in tr])
-        rows.append([codes, sig])
+                codes.append(99)
+        rows.append([codes, ints(S[i]) if nsig else [], ints(I[i]) if nin else []])
     return rows
 
 
-def run_loci(inp, mode):
+def step_params(inp):
+    """the parameter sets of the calls of one input (first call + one per `then` entry)"""
+    keys = ('chroms', 'win', 'wout', 'jit', 'min2', 'max2', 'tgt', 'nloci', 'alpha', 'ignore')
+    cur = {k: inp[k] for k in keys}
+    out = [dict(cur)]
+    for st in inp['then']:
+        cur = dict(cur)
+        cur.update({k: v for k, v in st.items() if k in keys})
+        out.append(cur)
+    return out
+
+
+def count_value(v2, typ):
+    if v2 is None:
+        return None
+    v = v2 // 2 if v2 % 2 == 0 else v2 / 2.0
+    if typ == 'float':
+        return float(v)
+    if typ == 'np32':
+        return numpy.float32(v)
+    if typ == 'np64':
+        return numpy.float64(v)
+    return v
+
+
+def snapshot(objs):
+    import pandas
+    out = []
+    for o in objs:
+        if isinstance(o, pandas.DataFrame):
+            out.append(('df', o.copy(deep=True), list(o.columns), list(o.index)))
+        elif isinstance(o, dict):
+            out.append(('dict', {k: numpy.array(v, copy=True) for k, v in o.items()}))
+        else:
+            out.append(('obj', copy.deepcopy(o)))
+    return out
+
+
+def same(objs, snaps):
+    for o, s in zip(objs, snaps):
+        if s[0] == 'df':
+            if list(o.columns) != s[2] or list(o.index) != s[3] or not o.equals(s[1]):
+                return False
+        elif s[0] == 'dict':
+            if set(o) != set(s[1]):
+                return False
+            for k in o:
+                a, b = numpy.asarray(o[k]), s[1][k]
+                if a.dtype != b.dtype or a.shape != b.shape or not numpy.array_equal(a, b, equal_nan=a.dtype.kind == 'f'):
+                    return False
+        elif o != s[1]:
+            return False
+    return True
+
+
+def run_loci(inp):
     import pandas
     from tangermeme.io import extract_loci
-    kw = dict(chroms=None if inp['chroms'] is None else [chrom_name(i) for i in inp['chroms']],
-              in_window=inp['win'], out_window=inp['wout'], max_jitter=inp['jit'],
-              min_counts=inp['min'], max_counts=inp['max'], target_idx=inp['tgt'], n_loci=inp['nloci'])
+    F = inp['forms']
     sets = [[(chrom_name(c), s, e) for c, s, e in st] for st in inp['sets']]
-    try:
-        if mode == 'file':
-            fa, bws = genome_files(inp)
-            beds = []
-            for i, st in enumerate(sets):
-                p = os.path.join(tmpdir(), 'l%d.bed' % i)
-                with open(p, 'w') as f:
-                    for l in st:
-                        f.write('%s\t%d\t%d\n' % l)
-                beds.append(p)
-            loci = beds if (len(beds) > 1 or inp.get('aslist')) else beds[0]
-            with contextlib.redirect_stdout(_io.StringIO()):
-                y = extract_loci(loci, fa, signals=bws if inp['nsig'] else None, **kw)
-        else:
-            seqs, sigs = genome_arrays(inp)
-            idx = inp.get('dfindex') or [None] * len(sets)
-            dfs = [pandas.DataFrame(st, columns=['chrom', 'start', 'end'], index=ix)
-                   for st, ix in zip(sets, idx)]
-            loci = dfs if (len(dfs) > 1 or inp.get('aslist')) else dfs[0]
-            y = extract_loci(loci, seqs, signals=sigs if inp['nsig'] else None, **kw)
-        return decode_rows(y, inp['nsig'])
-    except Exception:
-        return None
+    fa, bws, ibws = genome_files(inp)
+    # ---- BED files
+    beds = []
+    for i, st in enumerate(sets):
+        p = os.path.join(tmpdir(), 'l%d.bed' % i)
+        with open(p, 'w') as f:
+            for k, l in enumerate(st):
+                f.write('%s\t%d\t%d' % l + ('\tpeak%d\t%d\t+\n' % (k, 7 * k) if F['bed_extra'] else '\n'))
+        beds.append(p)
+    # ---- in-memory objects, built ONCE and reused by every call of the sequence
+    idx = inp['dfindex'] or [None] * len(sets)
+    dfs = []
+    for st, ix in zip(sets, idx):
+        df = pandas.DataFrame(st, columns=['chrom', 'start', 'end'], index=ix)
+        if F['df_dtype'] == 'int32':
+            df = df.astype({'start': numpy.int32, 'end': numpy.int32})
+        elif F['df_dtype'] == 'object':
+            df = df.astype({'start': object, 'end': object})
+        if F['df_extra']:
+            df['name'] = ['p%d' % k for k in range(len(df))]
+            df['idx'] = 5                      # a column called like the one _interleave_loci adds
+        dfs.append(df)
+    sigd = sig_arrays(inp, 'sig', inp['nsig'])
+    insd = sig_arrays(inp, 'insig', inp['nin'])
+    seqd = {}
+    M = F['mem']
+
+    def pick(form, files, mems):
+        if form in ('bed', 'bw', 'fasta'):
+            return list(files)
+        if form == 'mixed':
+            return [f if k % 2 == 0 else m for k, (f, m) in enumerate(zip(files, mems))]
+        return list(mems)
+
+    def container(xs):
+        if F['container'] == 'single' and len(xs) == 1:
+            return xs[0]
+        return tuple(xs) if F['container'] == 'tuple' else list(xs)
+    loci_f, loci_m = container(beds), container(pick(M['loci'], beds, dfs))
+    sig_f, sig_m = list(bws), pick(M['sig'], bws, sigd)
+    ins_f, ins_m = list(ibws), pick(M['insig'], ibws, insd)
+    watched = dfs + sigd + insd
+    snaps = snapshot(watched)
+    steps = []
+    cast = (lambda v: numpy.int64(v)) if F['np_int'] else (lambda v: v)
+    for P in step_params(inp):
+        alpha = list(P['alpha'])
+        if P['alpha'] not in seqd:
+            seqd[P['alpha']] = seq_arrays(inp, alpha)
+            watched.append(seqd[P['alpha']])
+            snaps += snapshot([seqd[P['alpha']]])
+        chroms = None if P['chroms'] is None else [chrom_name(i) for i in P['chroms']]
+        if chroms is not None and F['chroms_tuple']:
+            chroms = tuple(chroms)
+        chroms0 = copy.deepcopy(chroms)
+        kw = dict(chroms=chroms, in_window=cast(P['win']), out_window=cast(P['wout']),
+                  max_jitter=cast(P['jit']), min_counts=count_value(P['min2'], F['count_type']),
+                  max_counts=count_value(P['max2'], F['count_type']), target_idx=cast(P['tgt']),
+                  n_loci=None if P['nloci'] is None else cast(P['nloci']))
+        outs = []
+        for mode in ('file', 'mem'):
+            try:
+                if mode == 'file':
+                    with contextlib.redirect_stdout(_io.StringIO()):
+                        y = extract_loci(loci_f, fa, signals=sig_f if inp['nsig'] else None,
+                                         in_signals=ins_f if inp['nin'] else None,
+                                         alphabet=alpha, ignore=list(P['ignore']), **kw)
+                else:
+                    seq = fa if M['seq'] == 'fasta' else seqd[P['alpha']]
+                    with contextlib.redirect_stdout(_io.StringIO()):
+                        y = extract_loci(loci_m, seq, signals=sig_m if inp['nsig'] else None,
+                                         in_signals=ins_m if inp['nin'] else None,
+                                         alphabet=alpha, ignore=list(P['ignore']), **kw)
+                outs.append(decode_rows(y, inp['nsig'], inp['nin']))
+            except Exception:
+                outs.append(None)
+        if chroms != chroms0:
+            snaps.append(('obj', None))
+            watched.append(0)
+        steps.append(outs)
+    return {'steps': steps, 'unmodified': same(watched, snaps)}
 
 
 def run_impl(inp):
     if inp['kind'] == 'meme':
-        data = render(inp)
-        return {'o1': read_meme_file(data, 'm.meme'), 'o2': read_meme_file(plain_layout(inp), 'p.meme'),
-                'hash': file_hash(data), 'file': data.decode('latin-1')}
-    return {'o1': run_loci(inp, 'file'), 'o2': run_loci(inp, 'mem')}
+        return run_meme(inp)
+    return run_loci(norm_inp(inp))
 
 
 # ------------------------------------------------------------------------------------------
@@ -309,6 +518,7 @@ def qlit(s):
     return '(mkd %s %d)' % (C.z(fr.numerator), e)
 
 
+
 def meme_out_lit(o):
     if o is None:
         return 'Err'
@@ -319,35 +529,43 @@ def meme_out_lit(o):
 def loci_out_lit(o):
     if o is None:
         return 'Err'
-    return '(Ok (VLoci %s))' % C.lst(['(%s, %s)' % (C.zlist(sq), C.zmat(sg)) for sq, sg in o])
-
-
-def optz(v):
-    return C.opt(v)
-
-
-def coq_case(inp, out):
-    if inp['kind'] == 'meme':
-        call = '(CMeme (mkF %s %s %s))' % (C.lst([rline_lit(r) for r in inp['header']]),
-                                           C.lst([block_lit(b) for b in inp['blocks']]),
-                                           C.boolean(inp['final_nl']))
-        return pair_lit(call, meme_out_lit(out['o1']), meme_out_lit(out['o2']), C.z(out['hash']))
-    gen = C.lst(['(mkChrom %s %s %s)' % (C.z(c['id']), bts(c['seq']),
-                                        C.zmat([[0 if v is None else v for v in t] for t in c['sig']]))
-                 for c in inp['genome']])
-    sets = C.lst([C.lst(['(mkLocus %s %s %s)' % (C.z(c), C.z(s), C.z(e)) for c, s, e in st])
-                  for st in inp['sets']])
-    chroms = 'None' if inp['chroms'] is None else '(Some %s)' % C.zlist(inp['chroms'])
-    call = '(CLoci (mkX %s %s %s %s %s %s %d %s %s %d %s))' % (
-        gen, sets, chroms, C.z(inp['win']), C.z(inp['wout']), C.z(inp['jit']), inp['nsig'],
-        optz(inp['min']), optz(inp['max']), inp['tgt'], optz(inp['nloci']))
-    return pair_lit(call, loci_out_lit(out['o1']), loci_out_lit(out['o2']), '0')
+    return '(Ok (VLoci %s))' % C.lst(['(%s, %s, %s)' % (C.zlist(sq), C.zmat(sg), C.zmat(ig)) for sq, sg, ig in o])
 
 
 def pair_lit(call, o1, o2, h):
     if o1 == o2 and len(o1) > 40:      # same literal: let Coq check it once
         return '(let o := %s in (%s, o, o, %s))' % (o1, call, h)
     return '(%s, %s, %s, %s)' % (call, o1, o2, h)
+
+
+def coq_case(inp, out):
+    if inp['kind'] == 'meme':
+        g = '(mkF %s %s %s)' % (C.lst([rline_lit(r) for r in inp['header']]),
+                                C.lst([block_lit(b) for b in inp['blocks']]),
+                                C.boolean(inp['final_nl']))
+        cases = []
+        for n, (o1, o2) in zip(meme_steps(inp), out['steps']):
+            cases.append(pair_lit('(CMeme g %s)' % C.opt(n), meme_out_lit(o1), meme_out_lit(o2),
+                                  C.z(out['hash'])))
+        return '(let g := %s in (%s, %s))' % (g, C.lst(cases), C.boolean(out['unmodified']))
+    inp = norm_inp(inp)
+    gen = C.lst(['(mkChrom %s %s %s %s)' % (
+        C.z(c['id']), bts(c['seq']),
+        C.zmat([[0 if v is None else v for v in t] for t in c['sig'][:inp['nsig']]]),
+        C.zmat([[0 if v is None else v for v in t] for t in c['insig'][:inp['nin']]]))
+        for c in inp['genome']])
+    sets = C.lst([C.lst(['(mkLocus %s %s %s)' % (C.z(c), C.z(s), C.z(e)) for c, s, e in st])
+                  for st in inp['sets']])
+    cases = []
+    for P, (o1, o2) in zip(step_params(inp), out['steps']):
+        chroms = 'None' if P['chroms'] is None else '(Some %s)' % C.zlist(P['chroms'])
+        call = '(CLoci (mkX g s %s %s %s %s %d %d %s %s %d %s %s))' % (
+            chroms, C.z(P['win']), C.z(P['wout']), C.z(P['jit']), inp['nsig'], inp['nin'],
+            C.opt(P['min2']), C.opt(P['max2']), P['tgt'], C.opt(P['nloci']),
+            C.zlist([ord(ch) for ch in P['alpha']]))
+        cases.append(pair_lit(call, loci_out_lit(o1), loci_out_lit(o2), '0'))
+    return '(let g := %s in let s := %s in (%s, %s))' % (gen, sets, C.lst(cases),
+                                                         C.boolean(out['unmodified']))
 
 
 # ------------------------------------------------------------------------------------------
@@ -372,10 +590,11 @@ def nontrivial(inp, out):
 
 
 def hist_key(inp, out):
+    n = 1 + len(inp.get('then') or [])
     if inp['kind'] == 'meme':
-        return 'meme/%dmotifs/%s' % (len(inp['blocks']), 'nl' if inp['final_nl'] else 'no-final-nl')
-    o = out['o1']
-    return 'loci/%dsets/%s' % (len(inp['sets']), 'raise' if o is None else 'rows')
+        return 'meme/%dmotifs/%s/%dcalls' % (len(inp['blocks']), 'nl' if inp['final_nl'] else 'no-final-nl', n)
+    o = out['steps'][0][0]
+    return 'loci/%dsets/%s/%dcalls' % (len(inp['sets']), 'raise' if o is None else 'rows', n)
 
 
 def tags(inp, out):
@@ -395,7 +614,8 @@ def gen_token(rng):
     if k < 0.55:
         return '%.6f' % rng.random()
     if k < 0.65:
-        return rng.choice(['0.25', '0.250000', '1', '0', '1.000000', '0.000000', '0.5', '.5', '1.'])
+        return rng.choice(['0.25', '0.250000', '1', '0', '1.000000', '0.000000', '0.5', '.5', '1.',
+                           '+0.5', '-0.0', '1e0', '0.142857', '0.015873'])
     if k < 0.8:
         return '%.3e' % (rng.random() * 10 ** rng.randint(-6, 0))
     if k < 0.9:
@@ -479,10 +699,24 @@ def gen_meme(rng, small=False):
     return g
 
 
+
+def gen_meme_call(rng, small=False):
+    g = gen_meme(rng, small)
+    nb = len(g['blocks'])
+    pick = lambda: rng.choice([None, None, 0, 1, 1, nb - 1, nb, nb + 1, rng.randint(1, nb)])
+    if rng.random() < 0.4:
+        g['n_motifs'] = pick()
+    if rng.random() < 0.35:
+        g['then'] = [{'n_motifs': pick()} for _ in range(rng.randint(1, 2))]
+    g['np_int'] = rng.random() < 0.3
+    g['pathlib'] = rng.random() < 0.3
+    return g
+
+
 BASES = 'ACGTacgt'
 
 
-def gen_genome(rng, nsig):
+def gen_genome(rng, nsig, nin):
     out = []
     ids = rng.sample(range(1, 9), rng.randint(1, 4))
     for i in ids:
@@ -492,8 +726,8 @@ def gen_genome(rng, nsig):
             a = rng.randrange(L)
             for p in range(a, min(L, a + rng.randint(1, 6))):
                 s[p] = rng.choice('NNn')
-        sig = []
-        for _t in range(nsig):
+
+        def track():
             v = [rng.choice([0, 0, 1, 1, 2, 3, 5, 8]) for _ in range(L)]
             if rng.random() < 0.3:
                 a = rng.randrange(L)
@@ -501,20 +735,59 @@ def gen_genome(rng, nsig):
                     v[p] = None
             if all(x is None for x in v):
                 v[0] = 1
-            sig.append(v)
-        out.append({'id': i, 'seq': ''.join(s), 'sig': sig})
+            return v
+        out.append({'id': i, 'seq': ''.join(s), 'sig': [track() for _ in range(nsig)],
+                    'insig': [track() for _ in range(nin)]})
     return out
+
+
+def gen_forms(rng, nsets):
+    plain = rng.random() < 0.35
+    if plain:
+        return {'container': 'list' if nsets > 1 or rng.random() < 0.5 else 'single'}
+    return {
+        'container': rng.choice(['list', 'tuple'] + (['single'] if nsets == 1 else [])),
+        'bed_extra': rng.random() < 0.3,
+        'df_extra': rng.random() < 0.3,
+        'df_dtype': rng.choice(['int64', 'int64', 'int32', 'object']),
+        'seq_dtype': rng.choice(['int8', 'int8', 'float32', 'int64', 'bool', 'memmap']),
+        'sig_dtype': rng.choice(['float32', 'float32', 'float64', 'int64']),
+        'np_int': rng.random() < 0.3,
+        'count_type': rng.choice(['py', 'py', 'float', 'np32', 'np64']),
+        'chroms_tuple': rng.random() < 0.3,
+        'mem': {'loci': rng.choice(['df', 'df', 'df', 'mixed', 'bed']),
+                'seq': rng.choice(['dict', 'dict', 'dict', 'fasta']),
+                'sig': rng.choice(['dict', 'dict', 'mixed', 'bw']),
+                'insig': rng.choice(['dict', 'dict', 'mixed', 'bw'])},
+    }
+
+
+def gen_alpha(rng):
+    k = rng.random()
+    if k < 0.7:
+        return 'ACGT', rng.choice([['N'], ['N'], ['N', 'X']])
+    if k < 0.9:
+        a = list('ACGT')
+        rng.shuffle(a)
+        return ''.join(a), ['N']
+    return rng.choice(['ACGTN', 'NACGT']), rng.choice([[], ['X']])
 
 
 def gen_loci(rng):
     nsig = rng.choice([0, 1, 1, 2, 3])
-    genome = gen_genome(rng, nsig)
-    win = rng.choice([1, 2, 3, 4, 5, 6, 7, 8, 9, 10, 13, 14])
-    wout = rng.choice([win, win - 1, win + 1, 1, 2, 3, 4, 5, 6, 7, 8, 11, 12])
-    wout = max(1, wout)
-    jit = rng.choice([0, 0, 0, 1, 2, 3])
-    W = max(win // 2, (wout // 2) if nsig else 0) + jit
+    nin = rng.choice([0, 0, 0, 1, 2])
+    genome = gen_genome(rng, nsig, nin)
     lens = {c['id']: len(c['seq']) for c in genome}
+    Lmin = min(lens.values())
+    win = rng.choice([1, 2, 3, 4, 5, 6, 7, 8, 9, 10, 13, 14, Lmin - 1, Lmin, Lmin + 1])
+    wout = rng.choice([win, win - 1, win + 1, 1, 2, 3, 4, 5, 6, 7, 8, 11, 12, Lmin])
+    win, wout = max(1, win), max(1, wout)
+    if nsig == 0 and nin and rng.random() < 0.85:
+        wout = rng.randint(1, win + (1 if win % 2 == 0 else 0))     # out window inside the in window
+        if wout // 2 > win // 2:
+            wout = win
+    jit = rng.choice([0, 0, 0, 1, 2, 3])
+    W = max(win // 2, (wout // 2) if (nsig or nin) else 0) + jit
     ids = list(lens)
     chroms = None
     extra = []
@@ -522,6 +795,8 @@ def gen_loci(rng):
         chroms = sorted(rng.sample(ids, rng.randint(1, len(ids))))
         if rng.random() < 0.3:
             extra = [99]             # a chromosome absent from the genome, excluded by chroms
+        if rng.random() < 0.05:
+            chroms = []
     nsets = rng.choice([1, 1, 2, 2, 3])
     sets = []
     for _s in range(nsets):
@@ -543,28 +818,60 @@ def gen_loci(rng):
             else:
                 st.append([c, mid - h, mid + h + odd])
         sets.append(st)
-    mn = mx = None
-    if nsig and rng.random() < 0.4:
-        typ = (wout + 2 * jit) * 2
-        if rng.random() < 0.7:
-            mn = rng.randint(0, typ + 4)
-        if rng.random() < 0.5:
-            mx = rng.randint(max(0, typ - 6), typ + 10)
-    if chroms is not None and rng.random() < 0.6:
+    if chroms and rng.random() < 0.6:
         # BED-like files sorted by chromosome; the requested chromosomes are not the first ones,
         # so the filter removes prefixes / middles of different lengths in the different sets
         order = ids + extra
         rng.shuffle(order)
         sets = [sorted(st, key=lambda l: order.index(l[0])) for st in sets]
-        if len(order) > 1:
-            rest = [c for c in order[1:] if c in lens]
-            if rest:
-                chroms = sorted(rng.sample(rest, rng.randint(1, len(rest))))
+        rest = [c for c in order[1:] if c in lens]
+        if rest:
+            chroms = sorted(rng.sample(rest, rng.randint(1, len(rest))))
+    mn = mx = None
+    if nsig and rng.random() < 0.4:
+        typ = (wout + 2 * jit) * 4
+        if rng.random() < 0.7:
+            mn = rng.randint(0, typ + 8)
+        if rng.random() < 0.5:
+            mx = rng.randint(max(0, typ - 12), typ + 20)
+    alpha, ignore = gen_alpha(rng)
     inp = {'kind': 'loci', 'genome': genome, 'sets': sets, 'chroms': chroms, 'win': win, 'wout': wout,
-           'jit': jit, 'nsig': nsig, 'min': mn, 'max': mx, 'tgt': rng.randrange(nsig) if nsig else 0,
-           'nloci': rng.choice([None, None, None, 0, 1, 2, 3, 5]), 'aslist': rng.random() < 0.5,
-           'dfindex': gen_dfindex(rng, sets)}
+           'jit': jit, 'nsig': nsig, 'nin': nin, 'min2': mn, 'max2': mx,
+           'tgt': rng.randrange(nsig) if nsig else 0,
+           'nloci': rng.choice([None, None, None, 0, 1, 2, 3, 5]), 'alpha': alpha, 'ignore': ignore,
+           'forms': gen_forms(rng, nsets), 'dfindex': gen_dfindex(rng, sets), 'then': []}
+    if rng.random() < 0.35:
+        inp['then'] = [gen_step(rng, inp) for _ in range(rng.randint(1, 2))]
     return inp
+
+
+def gen_step(rng, inp):
+    """one parameter changed for the next call on the same objects"""
+    ids = [c['id'] for c in inp['genome']]
+    k = rng.choice(['win', 'wout', 'jit', 'chroms', 'nloci', 'alpha', 'counts', 'tgt', 'same'])
+    if k == 'win':
+        w = max(1, inp['win'] + rng.choice([-1, 1, 2, -2]))
+        if inp['nsig'] == 0 and inp['nin'] and inp['wout'] // 2 > w // 2:
+            return {}
+        return {'win': w}
+    if k == 'wout':
+        if inp['nsig'] == 0 and inp['nin']:
+            return {}
+        return {'wout': max(1, inp['wout'] + rng.choice([-1, 1, 2, -2]))}
+    if k == 'jit':
+        return {'jit': rng.choice([0, 1, 2])}
+    if k == 'chroms':
+        return {'chroms': rng.choice([None, sorted(rng.sample(ids, rng.randint(1, len(ids))))])}
+    if k == 'nloci':
+        return {'nloci': rng.choice([None, 0, 1, 2, 4])}
+    if k == 'alpha':
+        a, ig = gen_alpha(rng)
+        return {'alpha': a, 'ignore': ig}
+    if k == 'counts' and inp['nsig']:
+        return {'min2': rng.choice([None, rng.randint(0, 60)]), 'max2': rng.choice([None, rng.randint(10, 120)])}
+    if k == 'tgt' and inp['nsig'] > 1:
+        return {'tgt': rng.randrange(inp['nsig']), 'min2': rng.randint(0, 40)}
+    return {}
 
 
 def gen_dfindex(rng, sets):
@@ -592,45 +899,64 @@ def gen_dfindex(rng, sets):
     return out
 
 
-def counts_on_boundary(inp, rng):
-    """re-target min/max so that some locus sits exactly on the threshold"""
-    if not inp['nsig']:
-        return inp
-    out = run_loci(dict(inp, min=None, max=None, nloci=None), 'mem')
+def retarget(inp, rng):
+    """re-target min/max/n_loci so that some locus sits exactly on the threshold / the cap equals
+    the number of rows"""
+    base = dict(inp, min2=None, max2=None, nloci=None, then=[], forms={'container': 'list'})
+    out = run_loci(norm_inp(base))['steps'][0][1]
     if not out:
         return inp
-    tot = sum(rng.choice(out)[1][inp['tgt']])
     inp = dict(inp)
-    if rng.random() < 0.5:
-        inp['min'] = tot + rng.choice([0, 0, 1])
-    else:
-        inp['max'] = tot - rng.choice([0, 0, 1])
+    k = rng.random()
+    if k < 0.3:
+        inp['nloci'] = len(out) + rng.choice([-1, 0, 0, 1])
+    elif inp['nsig']:
+        tot = sum(rng.choice(out)[1][inp['tgt']])
+        if k < 0.65:
+            inp['min2'] = 2 * tot + rng.choice([0, 0, 1, -1, 2])
+        else:
+            inp['max2'] = 2 * tot - rng.choice([0, 0, 1, -1, 2])
     return inp
 
 
 def generate(tier, rng):
     quick = tier != 'thorough'
-    n_loci_cases = 900 if quick else 9000
-    n_meme = 450 if quick else 4000
+    n_loci_cases = 700 if quick else 7000
+    n_meme = 380 if quick else 3500
     # a small systematic sweep: one locus at every position of a short chromosome, all window parities
     seq = 'ACGTNacgtnGATTACAgg'
     sig = [[(3 * i + 1) % 7 for i in range(len(seq))]]
-    for win, wout, jit, nsig in ((1, 1, 0, 0), (2, 2, 0, 1), (3, 2, 0, 1), (2, 3, 1, 1), (5, 8, 0, 1),
-                                 (8, 5, 1, 1), (4, 4, 2, 0), (7, 7, 0, 1)):
+    for win, wout, jit, nsig, nin in ((1, 1, 0, 0, 0), (2, 2, 0, 1, 0), (3, 2, 0, 1, 1), (2, 3, 1, 1, 0),
+                                      (5, 8, 0, 1, 1), (8, 5, 1, 1, 0), (4, 4, 2, 0, 1), (7, 7, 0, 1, 0),
+                                      (19, 19, 0, 1, 1), (18, 19, 0, 1, 0), (19, 18, 0, 1, 0), (20, 2, 0, 1, 0)):
         st = [[1, p, p] for p in range(-1, len(seq) + 2)]
-        yield {'kind': 'loci', 'genome': [{'id': 1, 'seq': seq, 'sig': sig[:nsig]}], 'sets': [st],
-               'chroms': None, 'win': win, 'wout': wout, 'jit': jit, 'nsig': nsig, 'min': None, 'max': None,
-               'tgt': 0, 'nloci': None, 'aslist': False}
+        yield {'kind': 'loci', 'genome': [{'id': 1, 'seq': seq, 'sig': sig[:nsig], 'insig': sig[:nin]}],
+               'sets': [st], 'chroms': None, 'win': win, 'wout': wout, 'jit': jit, 'nsig': nsig, 'nin': nin,
+               'min2': None, 'max2': None, 'tgt': 0, 'nloci': None, 'alpha': 'ACGT', 'ignore': ['N'],
+               'forms': {'container': 'single'}, 'dfindex': None, 'then': []}
     for k in range(n_loci_cases):
         inp = gen_loci(rng)
-        if k % 5 == 0:
-            inp = counts_on_boundary(inp, rng)
+        if k % 4 == 0:
+            inp = retarget(inp, rng)
         yield inp
     for k in range(n_meme):
-        yield gen_meme(rng, small=(k % 4 == 0))
+        yield gen_meme_call(rng, small=(k % 4 == 0))
 
 
 def shrink(inp):
+    if inp.get('then'):
+        yield dict(inp, then=[])
+        T = inp['then']
+        if inp['kind'] == 'meme':
+            for i in range(len(T)):
+                yield dict(inp, n_motifs=T[i].get('n_motifs'), then=[])
+        else:
+            cur = {}
+            for i in range(len(T)):
+                cur.update(T[i])
+                yield dict(inp, then=[], **cur)
+        for i in range(len(T)):
+            yield dict(inp, then=T[:i] + T[i + 1:])
     if inp['kind'] == 'meme':
         B = inp['blocks']
         for i in range(len(B)):
@@ -651,6 +977,11 @@ def shrink(inp):
                 yield dict(inp, blocks=B[:i] + [dict(b, rows=b['rows'][:w],
                                                      letter=dict(b['letter'], toks=toks))] + B[i + 1:])
         return
+    inp = norm_inp(inp)
+    inp.pop('min', None)
+    inp.pop('max', None)
+    if inp['forms'] != norm_inp(dict(inp, forms={'container': 'list'}))['forms']:
+        yield dict(inp, forms={'container': 'list'})
     S = inp['sets']
     D = inp.get('dfindex') or [None] * len(S)
     if inp.get('dfindex'):
@@ -669,9 +1000,13 @@ def shrink(inp):
         for i in range(len(G)):
             if G[i]['id'] not in used:
                 yield dict(inp, genome=G[:i] + G[i + 1:])
-    for key in ('min', 'max', 'nloci', 'chroms'):
+    for key in ('min2', 'max2', 'nloci', 'chroms'):
         if inp[key] is not None:
             yield dict(inp, **{key: None})
+    if inp['nin'] and (inp['nsig'] or inp['wout'] // 2 <= inp['win'] // 2):
+        yield dict(inp, nin=0)
+    if inp['alpha'] != 'ACGT':
+        yield dict(inp, alpha='ACGT', ignore=['N'])
     if inp['jit'] > 0:
         yield dict(inp, jit=inp['jit'] - 1)
 
@@ -680,4 +1015,4 @@ def search(rng, disagreeing):
     for _ in range(300):
         yield gen_loci(rng)
     for _ in range(200):
-        yield gen_meme(rng, small=True)
+        yield gen_meme_call(rng, small=True)
